@@ -12,7 +12,41 @@
 #include <vector>
 
 static Binson build_obj(const vnode *o, vrng *r);
+static BinsonValue build_val_direct(const vnode *n, vrng *r);
 static BinsonValue build_val(const vnode *n, vrng *r)
+{
+    if (vrn(r, 4) == 0) {
+        /* the value is not constructed but assigned (operator=(T&&)) to a BinsonValue that already holds something - of the same
+         * kind or of another one */
+        BinsonValue v;
+        switch (vrn(r, 6)) {
+        case 0: v = BinsonValue(std::string("previous content, long enough to live on the heap")); break;
+        case 1: v = BinsonValue(std::vector<uint8_t>(40, 0x5a)); break;
+        case 2: { std::vector<BinsonValue> pa; pa.push_back(BinsonValue((int64_t)1)); v = BinsonValue(pa); break; }
+        case 3: { Binson po; po.put("p", BinsonValue(true)); v = BinsonValue(po); break; }
+        case 4: v = BinsonValue((int64_t)-9); break;
+        default: break;
+        }
+        vw_count("values_assigned_over_previous_content", 1);
+        switch (n->kind) {
+        case K_BOOL: v = (bool)n->b; break;
+        case K_INT: v = (int64_t)n->i; break;
+        case K_DBL: { double d; memcpy(&d, &n->dbits, 8); v = std::move(d); break; }
+        case K_STR: v = std::string((const char *)n->data, n->data_len); break;
+        case K_BYTES: v = std::vector<uint8_t>(n->data, n->data + n->data_len); break;
+        case K_OBJ: v = build_obj(n, r); break;
+        default: {
+            std::vector<BinsonValue> a;
+            for (uint32_t i = 0; i < n->nkids; i++) a.push_back(build_val(n->kids[i], r));
+            v = std::move(a);
+            break;
+        }
+        }
+        return v;
+    }
+    return build_val_direct(n, r);
+}
+static BinsonValue build_val_direct(const vnode *n, vrng *r)
 {
     switch (n->kind) {
     case K_BOOL: return BinsonValue((bool)n->b);
